@@ -31,7 +31,7 @@ ROOT = Path(__file__).resolve().parent.parent
 COQ = ROOT / "coq"
 THEORIES = COQ / "theories"
 WORK = ROOT / ".work"
-EVIDENCE = ROOT / "evidence"
+EVIDENCE = Path(os.environ.get("VERIF_EVIDENCE_DIR", str(ROOT / "evidence")))   # seeded evaluations write elsewhere
 REPLAYS = ROOT / "replays"
 CORPUS = ROOT / "corpus"
 REPO = Path(os.environ.get("VERIF_REPO", "/repo"))
